@@ -1627,6 +1627,15 @@ func injectorTemplateForms() []*Program {
 		p.Extra["0/zz_driver.go"] = drvHdr + "func Scenarios() {\n\t_ = Init(1, \"s\")\n}\n"
 		progs = append(progs, p)
 	}
+	{
+		// a function value that calls the injector it is injected into: fine as functions go,
+		// but hoisted into a package-level variable it closes an initialisation cycle
+		p := mk("value-function-reentering-injector", "wire.Value of a function that calls the same injector", false)
+		p.Extra["0/decl.go"] = "package app\n\ntype Node struct{ F Factory }\n\ntype Factory func(depth int) *Node\n\nfunc NewNode(f Factory) *Node { return &Node{F: f} }\n\nfunc child(depth int) *Node {\n\tif depth > 0 {\n\t\treturn nil\n\t}\n\treturn Init()\n}\n"
+		p.Extra["0/wire.go"] = hdr + "import \"github.com/google/wire\"\n\nfunc Init() *Node {\n\twire.Build(NewNode, wire.Value(Factory(child)))\n\treturn nil\n}\n"
+		p.Extra["0/zz_driver.go"] = drvHdr + "func Scenarios() {\n\t_ = Init().F(1)\n}\n"
+		progs = append(progs, p)
+	}
 	// the wire.Build call in parentheses: still the template of an injector
 	for _, v := range []struct{ id, note, body string }{
 		{"paren-build", "wire.Build call statement in parentheses", "\t(wire.Build(NewSvc))\n\treturn nil\n"},
